@@ -8,7 +8,8 @@ LEVEL = "exploration"
 RULE = ("ELF64/ELF32 objects written by the harness with 1-4 executable sections of distinct random content (some placed at "
         "lower addresses than earlier ones) plus data sections, x `config.sections` absent / one / several / reordered / "
         "with names not present / naming a data section, optionally together with other config keys (style: att, valid_addr_range, "
-        "full-match flags) given identically to both routes; also tests/binary/*.bin. The binary route (MasterOfPuppets, "
+        "full-match flags) given identically to both routes; objects whose code section names extend one another (.text / .text.startup / .text.hot ...); "
+        "`ar` archives of assembled relocatable objects and the objects themselves; also tests/binary/*.bin. The binary route (MasterOfPuppets, "
         "InputFileType.binary) is compared with the assembly route fed with the harness's own `objdump -d -M att` output "
         "restricted to the named sections by the harness (reference A) and, as second reference, with the harness's own "
         "`-j` invocation (reference B): stream equal, and for a rule derived from the listing the address list equal in both "
@@ -18,7 +19,7 @@ RULE = ("ELF64/ELF32 objects written by the harness with 1-4 executable sections
         "sections list was given; distinct = (object bytes hash, sections list).")
 FLOOR = {"quick": 60, "thorough": 1000}
 ANCHOR_HINTS = ["gnu_objdump_disassembler", "shell_disassembler", "composable_producer", "match.py"]
-REQUIRED_EVENTS = ["routes_compared"]
+REQUIRED_EVENTS = ["routes_compared", "subsection_objects", "archive_or_object_inputs"]
 
 SPAWNS = []
 _hooked = False
@@ -162,10 +163,70 @@ def _judge(ctx, ws, blob, sections, origin, exec_names, all_names, extra=None):
                                                             "records": rR[1].count("|"), "exec_sections": exec_names})
 
 
+def subsection_stratum(ctx, ws, n):
+    """Objects whose code sections have names that extend one another (.text, .text.startup, .text.hot, .text.unlikely, .text.exit,
+    .init, .init_array) and data sections (.data, .data.rel.ro): naming `.text` means the section called `.text`, nothing else."""
+    from jv import elf
+    rng = ctx.rng
+    for _ in range(n):
+        names = [".text"] + rng.sample([".text.startup", ".text.hot", ".text.unlikely", ".text.exit", ".init", ".textual", "text"], rng.randint(1, 3))
+        data_names = rng.sample([".data", ".data.rel.ro", ".rodata"], rng.randint(0, 2))
+        secs, addr = [], 0x401000
+        for nm in names:
+            secs.append(elf.Section(nm, elf.random_code(rng, rng.randint(20, 120), "biased"), addr, True))
+            addr += 0x1000
+        for nm in data_names:
+            secs.append(elf.Section(nm, elf.random_code(rng, rng.randint(16, 64)), addr + 0x10000, False))
+            addr += 0x1000
+        rng.shuffle(secs)
+        bits = rng.choice([64, 64, 32])
+        blob = elf.build(secs, bits, None)
+        sel = rng.choice([[".text"], [".text"], [rng.choice(names)], [".text", rng.choice(names)], [".text"] + data_names[:1], data_names[:1] or [".text"]])
+        ctx.event("subsection_objects")
+        judge(ctx, ws, blob, sel, f"subsections/elf{bits}", names, names + data_names)
+
+
+def archive_stratum(ctx, ws, n):
+    """Inputs objdump disassembles although they are not a single ELF image: `ar` archives of relocatable objects (every lib*.a) and the
+    relocatable objects themselves. The binary route must equal the text route on `objdump -d -M att` of the same file."""
+    import shutil
+    import subprocess
+    from jv import asmgen
+    rng = ctx.rng
+    ar = shutil.which("ar")
+    for _ in range(n):
+        members = []
+        for k in range(rng.randint(1, 3)):
+            bits = 64
+            r = asmgen.assemble(ws, [asmgen.template(rng, bits) for _ in range(rng.choice([8, 30]))], bits)
+            if r is None:
+                continue
+            mp = ws.path(f"m{k}.o")
+            shutil.copy(r[0], mp)
+            members.append(mp)
+        if not members:
+            ctx.inconc("as refused a template batch")
+            continue
+        if ar and rng.random() < 0.7:
+            lib = ws.path("libx.a")
+            if os.path.exists(lib):
+                os.remove(lib)
+            if subprocess.run([ar, "rcs", lib] + members, capture_output=True).returncode != 0:
+                ctx.inconc("ar failed")
+                continue
+            blob, origin = open(lib, "rb").read(), f"archive/{len(members)} members"
+        else:
+            blob, origin = open(members[0], "rb").read(), "relocatable object"
+        ctx.event("archive_or_object_inputs")
+        judge(ctx, ws, blob, rng.choice([None, None, [".text"]]), origin, [".text"], [".text", ".data", ".bss"])
+
+
 def run_shard(ctx):
     install()
     ws = real.Workspace()
     rng = ctx.rng
+    subsection_stratum(ctx, ws, ctx.share(64, 3000))
+    archive_stratum(ctx, ws, ctx.share(32, 1500))
     bdir = os.path.join(real.JASM_REPO, "tests", "binary")
     if os.path.isdir(bdir):
         limit = 50_000 if ctx.tier == "quick" else 300_000
